@@ -1,7 +1,16 @@
 # claim(id, level text, design ref)   /   notapp(id, reason)
+B = " Universal inside the stated bound, silent outside it; counterexamples are replayed against the native build before being reported."
+claim("C10", "Bounded model checking of HTMLEscaped / HTMLConcat from their SSA (coerceToUTF8InterchangeValid with the range tables built by the real initialiser, unicode.Is from stdlib SSA): for every byte string up to the bound the result equals an independent rune-wise reference, passes an alphabet scan and utf8.ValidString." + B, "DESIGN.md §6 C10")
+claim("C11", "Bounded model checking of URLSanitized / isSafeURL from SSA against a WHATWG scheme-state scanner: result is the input or the innocuous URL; an accepted string has no javascript scheme and no '&' before the scheme decision; the real html.UnescapeString (stdlib SSA) of an accepted string has no javascript scheme; both completeness clauses." + B, "DESIGN.md §6 C11")
+claim("C12", "Bounded model checking of URLSetSanitized from SSA: the result re-parsed by a WHATWG srcset splitter yields only candidates URLSanitized keeps, number-like descriptors, bytes copied in order from the input, never empty; idempotence." + B, "DESIGN.md §6 C12")
+claim("C13", "Bounded model checking of the TrustedResourceURL builders from SSA: prefix recogniser, marker substitution vs a reference encoder with per-byte provenance (confinement of '..' segments), Append, WithParams in both map orders. Two genuine deviations are recorded as known findings." + B, "DESIGN.md §6 C13")
+claim("C15", "Bounded model checking of StyleFromProperties from SSA, one field at a time plus two-field and list cases, against a CSS Syntax 3 tokenizer written as a scalar machine: exactly one declaration per chunk, initial state at the end, documented alphabet for verbatim values, reference CSS string escaper. One known finding (',' admitted)." + B, "DESIGN.md §6 C15")
+claim("C16", "Bounded model checking of CSSRule / hasBalancedBrackets (container/list from stdlib SSA) against the CSS tokenizer reference: success implies result == selector{style} and a clean prelude. One known finding family (unquoted url tokens)." + B, "DESIGN.md §6 C16")
+claim("C17", "Reduced scope: bounded model checking of ScriptFromDataAndConstant for data of Go type string, with the real encoding/json.appendString[string] executed from stdlib SSA: name pattern, frame, inertness of the JSON string literal." + B, "DESIGN.md §6 C17")
 claim("C18", "Bounded model checking of IdentifierFromConstant / IdentifierFromConstantPrefix from their SSA: for every byte string up to the bound, "
       "'no panic' implies the result is the argument (resp. prefix-hyphen-value) and matches an independent byte-level recogniser of [A-Za-z][-_A-Za-z0-9]*; "
-      "the regular expressions are read from the current source. Universal inside the bound, silent outside it.", "DESIGN.md §6 C18")
+      "the regular expressions are read from the current source." + B, "DESIGN.md §6 C18")
+claim("C20", "Bounded model checking of TrustedSourceFromConstantDir with the real path/filepath.Join and Clean executed from stdlib SSA on a symbolic filename, for 10 constant (dir, src) pairs: success implies no separator, no list separator, not '..', and result == cleaned dir/src or its direct child." + B, "DESIGN.md §6 C20")
 
 HIST = ("a statement about API call histories / aliasing of pointer-linked parse trees driven by text/template's parser and reflection-based executor; "
         "there is no symbolic input whose bytes a solver could range over and the code cannot be encoded by the SSA encoder (DESIGN.md §7)")
@@ -10,5 +19,5 @@ notapp("C06", "history independence of execution results: " + HIST)
 notapp("C07", "definition freeze and clone isolation: " + HIST)
 notapp("C09", "concurrency: schedules of goroutines over sync.Mutex and unsynchronised tree reads; the engine has no concurrency or memory model (DESIGN.md §7)")
 notapp("C19", "decided by the Go type checker and by enumerating exported identifiers, not by reasoning over values; nothing to hand to an SMT solver (DESIGN.md §7)")
-for p in ["C01","C02","C03","C04","C08","C10","C11","C12","C13","C14","C15","C16","C17","C20"]:
+for p in ["C01","C02","C03","C04","C08","C14"]:
     notapp(p, "planned (DESIGN.md §6) but the check is not built yet in this revision of /verif; not claimed until it runs clean")
